@@ -103,6 +103,13 @@ def run(call):
     before = t.clone() if t is not None else None
     if fn == "quantize_weight":
         q = quantize_weight(t, QT[call["qtype"]], call["axis"], call.get("group_size"), OPT[call.get("optimizer")])
+        if call.get("interleave"):
+            # another weight (same element count, same configuration, another shape) goes through the library before q is read
+            try:
+                other = torch.flip(t.detach().reshape(-1), dims=[0]).reshape(call["interleave"]).contiguous()
+                quantize_weight(other, QT[call["qtype"]], call["axis"], call.get("group_size"), OPT[call.get("optimizer")]).dequantize()
+            except Exception:  # noqa: BLE001
+                pass
         r = observe(q)
         if call.get("requant"):
             d = q.dequantize()
